@@ -76,7 +76,7 @@ MANIFEST = {
             "(b1u.<pairs>), sends that have to WAIT in the session's delay queue (dly: three CONs and a NON back to back with "
             "NSTART = 1, a lost first transmission with CONs queued behind it) and CoAP over TCP on the kernel's loopback (tcp: "
             "a TCP endpoint, two client sessions, CSM exchange, 400- and 1200-byte messages that make coap_read_session grow the "
-            "receive PDU; a session that is still up must still be served after a failure closed another one; ws: the same two sessions over CoAP over WebSockets) are run on "
+            "receive PDU; a session that is still up must still be served after a failure closed another one; ws: the same two sessions over CoAP over WebSockets; wsp: with short socket writes, frames written and read in parts) are run on "
             "the real code with every single allocation request failing (about 3600 runs; thorough: every pair, capped at 40000 per scenario, 1500 per generated order, 8000 / 6000 for oscobs / echo), "
             "each followed by a canary exchange on the same contexts, and "
             "judged by ASan/UBSan, the verified ledger monitor on the REAL allocation trace, LSan, PDU-consumed evidence, the canary, "
@@ -99,7 +99,7 @@ MANIFEST = {
 }
 LEAN_MODULES = ["CoapVerif.Props.C18", "CoapVerif.Props.C18Recv"]
 NAMESPACE = "Coap.C18"
-# clean (exit 0) at seeds 1..3 quick on 2026-09-28 with dly / tcp and the delayed-send scripts (E0 / E1)
+# clean (exit 0) at seeds 1..3 quick on 2026-09-28 with dly / tcp / ws / wsp and the delayed-send scripts (E0 / E1)
 REQUIRED_THEOREMS = ["failure_atomic", "no_leak_on_failure", "send_consumes_pdu", "send_error_keeps_slot", "next_op_succeeds",
                      "alloc_count_matches", "ledger_replay", "script_ledger_ok", "script_verdict",
                      "observer_refs_balanced", "observer_refs_count", "add_observer_spec", "createSub_spec", "deleteObserver_spec",
@@ -153,7 +153,7 @@ RULE = ("(1) helper-layer scripts `ahelp k1 k2 <ops>`: random sequences (4..16 c
         "and to /put, 2 fixed + 2 generated interleavings, thorough 4: the unknown-resource transfer first or second, final "
         "block early, repeats, the /put transfer complete or left unfinished), dly (sends waiting in the delay queue: second and "
         "third CON of a burst, CONs behind a retransmission), tcp (CoAP over TCP on loopback: two sessions, messages of 400 and "
-        "1200 bytes, a session still up must still be served), ws (the same over CoAP over WebSockets: HTTP upgrade on loopback, session->ws, the frame buffer of coap_ws_write, the receive PDU of the WS branch of coap_read_session): every single failing request index k (quick and thorough) and pairs (k, k2) (quick: a "
+        "1200 bytes, a session still up must still be served), ws (the same over CoAP over WebSockets: HTTP upgrade on loopback, session->ws, the frame buffer of coap_ws_write, the receive PDU of the WS branch of coap_read_session), wsp (ws with a socket that takes only half of every large write on the second session: coap_ws_write's progress within a frame, the delay queue's partial_write, the server's ws->rx_data): every single failing request index k (quick and thorough) and pairs (k, k2) (quick: a "
         "seeded sample of 4000, thorough: every pair of a scenario up to 40000 per scenario, 1500 per generated b1o / b1u order, 8000 of oscobs, 6000 of echo; a seeded sample beyond), each "
         "followed by a canary exchange, judged by ASan/UBSan, the Lean-verified ledger monitor on the real allocation trace, "
         "LSan, PDU-consumed evidence, 'a 2.xx body that claims to be complete is the body' (obsre: 'a notification is computed "
@@ -215,7 +215,7 @@ B1O_PAIR_CAP = 1500     # ... per generated b1o.<order> / b1u.<pairs> scenario (
 # a seeded sample keeps the thorough tier inside its 30 minutes
 SCN_PAIR_CAP = {"oscobs": 8000, "echo": 6000}
 SCENARIOS = ["uri", "pdu", "rr", "b1", "b2", "obs", "setup", "osc", "h508", "wkc", "b1raw", "b2raw", "obsblk", "cache", "async", "obsre",
-             "obsfetch", "oscobs", "echo", "xtok", "dly", "tcp", "ws"]
+             "obsfetch", "oscobs", "echo", "xtok", "dly", "tcp", "ws", "wsp"]
 # parametrised scenario b1o.<digits>: the five hand-built Block1 requests of b1raw in a generated order (repeats allowed);
 # these two always run (the final block early, and again before the gap is filled / a repeated middle block, a block after the end)
 B1O_FIXED = ["b1o.0442130", "b1o.4400123312"]
@@ -247,6 +247,7 @@ EXPECT0 = {
     "dly": "dq2,dq0,dq2,dq0,req7,rsp7,c2.05,c2.05,c2.05,c2.05,c2.05,c2.05,c2.05,nack0,body0/0,put0/0",
     "tcp": "sess11,est11/2,tput4/0,srvs2,up2,req7,rsp7,c2.04,c2.04,c2.04,c2.05,c2.04,c2.05,c2.05,nack0,body0/0,put0/0",
     "ws": "sess11,est11/2,tput4/0,srvs2,up2,req7,rsp7,c2.04,c2.04,c2.04,c2.05,c2.04,c2.05,c2.05,nack0,body0/0,put0/0",
+    "wsp": "sess11,est11/2,tput4/0,srvs2,up2,req7,rsp7,c2.04,c2.04,c2.04,c2.05,c2.04,c2.05,c2.05,nack0,body0/0,put0/0",
     "obsfetch": "subs1,notify1,subs2,notify1,cancel1,subs1,cancel1,subs0,notify0,req7,rsp7,c2.05,c2.05,c2.05,c2.05,c2.05,c2.05,c2.05,nack0,body0/0,put0/0",
 }
 
@@ -737,7 +738,7 @@ def symptoms(c):
     if re.search(r"(^|,)deaf\d", out):
         what["deaf"] = ("a TCP session that is still established is no longer served after the failure hit ANOTHER session "
                         "(answered/asked: %s)" % re.search(r"deaf(\d+/\d+)", out).group(1))
-    if scn in ("tcp", "ws") and re.search(r"tput\d+/[1-9]", out):
+    if scn in ("tcp", "ws", "wsp") and re.search(r"tput\d+/[1-9]", out):
         what["body"] = "a PUT handler on a TCP session was given a payload that is not the payload sent (%s)" % re.search(r"tput\d+/\d+", out).group(0)
     m = re.search(r"body(\d+)/(\d+),put(\d+)/(\d+)", out)
     if m and (int(m.group(2)) or int(m.group(4))):
@@ -879,6 +880,10 @@ def known(ctx, c):
         return None
     def some_site(*names):
         return any(all(n in s.split("<") for n in names) for s in sites)
+    # open: a part of a message is on the stream (short write) and the node that would keep the rest cannot be allocated:
+    # coap_send_internal releases the PDU and reports COAP_INVALID_MID, the session stays up with half a frame sent
+    if w[1] == "wsp" and some_site("coap_new_node", "coap_session_delay_pdu", "coap_send_internal") and what <= {"deaf", "body"}:
+        return "partial-write-not-queued-stream-out-of-step"
     # (oscore-conf-alloc-failure-ignored was open here until the fix of coap_parse_oscore_conf_mem: nothing in osc is excused any more)
     # (block2-partial-body-on-alloc-failure and block1-wrong-body-after-build-body-failure were open here until the fixes
     #  dd57cca / 28062c6: no case of b1, b2, b1raw, b2raw, wkc, obsblk may be excused any more)
